@@ -780,6 +780,15 @@ def c05(run, an=None, tk=None):
                         if missing:
                             out.append(V("C05", "new-before-replay", f"transport {t}: new {p['type']} id {p['id']} before replay of {sorted(missing)}", step=p["when"][0]))
                         break
+            else:
+                # no new identifier-bearing packet was seen. If that is because the client's stream stops
+                # being MQTT (not: ends inside a packet) while replays are still owed, the bytes written
+                # in their place are not the retransmission of anything
+                if n["cerr"] and n["client"]:
+                    last = n["client"][-1]["when"]
+                    missing = [i for i in pending_ids - seen if still_pending_at(run, an, t, i, (last[0] + 1, 0))]
+                    if missing:
+                        out.append(V("C05", "replay-garbled", f"transport {t}: resumed session owes the replay of {sorted(missing)} but the stream stops being MQTT after {len(n['client'])} packets: {n['cerr']}", step=last[0]))
     return out
 
 
